@@ -26,7 +26,7 @@ import time
 ROOT = os.environ.get("GV_ROOT", os.path.dirname(os.path.dirname(os.path.abspath(__file__))))
 FUZZ = os.path.join(ROOT, "fuzz")
 GV = os.path.join(ROOT, "harness", "target", "release", "gv")
-TEXT_MODE = {"C02", "C03", "C04", "C05", "C06", "C07", "C13", "C19"}
+TEXT_MODE = {"C03", "C04", "C05", "C06", "C07", "C13", "C19"}
 TRIPLE = "x86_64-unknown-linux-gnu"
 
 TEXT_SEEDS = [
